@@ -11,7 +11,7 @@
 (* commit hook of the database wrapper holds across the inner commit - so  *)
 (* the order of the lines is the order of the commits):                    *)
 (*   chain actions of the harness thread, logged when done:                *)
-(*      Extend Fork ForkSlow ReorgStep SwitchTo Announce                   *)
+(*      Extend Fork ForkSlow ReorgStep SwitchTo Announce Reannounce        *)
 (*   scheduling points of the follower goroutine (build-tagged):           *)
 (*      h.top  h.block  h.tx  h.suspended  h.resumed                       *)
 (*   scheduling points of the worker goroutine:                            *)
@@ -20,6 +20,11 @@
 (*      projection read through the committing transaction: synced chain,  *)
 (*      status records, rescan cursors, mined balances, pending set        *)
 (*   rollback (role) - the update of that goroutine was abandoned          *)
+(*   q.begin / q.end (api, wallet, answer) - a call of the query thread    *)
+(*   fault (role, call) - the harness makes this storage call fail         *)
+(*   Crash / restarted - the database of the instance is frozen at this    *)
+(*      instant; a fresh instance on the crash image has started (its      *)
+(*      catch-up commits in between are commits of the call "Restart")     *)
 (*                                                                         *)
 (* A block step reads the node's chain database between its h.block and    *)
 (* its commit, while the harness thread may change it: the step itself is  *)
@@ -33,9 +38,11 @@ EXTENDS Gen
 CONSTANT TracePend      \* TRUE: the recorded pending set is compared at every commit
 
 VARIABLES l,      \* next trace line
-          hst,    \* follower: "top" | "blk0" | "blk1" | "blk2" | "tx0" | "tx1" | "tx2" | "susp" | "res"
-          wst,    \* worker:   "top" | "s0" | "s1" | "s2" | "r" | "rd" | "round"
-          pre     \* durable state before the silent step in flight of the follower / of the worker
+          hst,    \* follower: "top" | "blk0" | "blk1" | "blk2" | "blkF" | "tx0" | "tx1" | "tx2" | "txF" | "susp" | "res" | "down"
+          wst,    \* worker:   "top" | "s0" | "s1" | "s2" | "sF" | "r" | "rd" | "round" | "down"
+          pre     \* bookkeeping of the trace: durable state before the silent step in flight (h, w), the decision of the
+                  \* unconfirmed-transaction step in flight (t, acc), the chain as of the last commit (c), the open
+                  \* query (qo, q), the chain when the process died (rb)
 tvars == <<vars, l, hst, wst, pre>>
 
 Trace == ndJsonDeserialize("trace.ndjson")
